@@ -69,7 +69,8 @@ def run(chk):
                        'outside': 'networks with more than 3 variables are covered only through the inductive argument (operators + dispatch) under the library model'})
     chk.assumptions += ['E-MIR: bit-vector model of the biodivine libraries (DESIGN.md 3.4); attractor search by contract stub', 'HashMap/HashSet iteration in insertion order (all orders are explored in C04)']
     from .. import conformance
-    conformance.run(chk, 2, 1); conformance.run(chk, 3, 0, samples=2)
+    from ..run import guard as _guard
+    _guard(chk, 'library-model conformance', conformance.run, chk, 2, 1); _guard(chk, 'library-model conformance', conformance.run, chk, 3, 0, samples=2)
     kernel_part(chk, configs)
     fs = dispatch_formulas()
     tasks = []
